@@ -207,7 +207,7 @@ fn run_child(extra: &[String], progress_dir: &str, hang_secs: u64) -> ChildEnd {
 fn supervisor(a: &Args) -> i32 {
     let p = property(&a.cmd).unwrap();
     let dir = format!("{}/progress", sim::scratch_root().display());
-    let hang_secs: u64 = std::env::var("VERIF_HANG_SECS").ok().and_then(|s| s.parse().ok()).unwrap_or(300);
+    let hang_secs: u64 = std::env::var("VERIF_HANG_SECS").ok().and_then(|s| s.parse().ok()).unwrap_or(600);
     let end = run_child(&[], &dir, hang_secs);
     let code = match end {
         ChildEnd::Done(c) => c,
